@@ -445,8 +445,22 @@ def check_fault(ctx, mods, r, f, scratch, k):
 def check_convention(ctx, mods, r, scratch, k):
     """Parseable content that violates a convention must warn, not raise."""
     kind = r.choice(["events-unsorted", "intervals-negative-duration", "key-invalid",
-                     "tempo-negative", "events-huge"])
-    if kind == "events-unsorted":
+                     "tempo-negative", "events-huge", "tempo-both-zero", "tempo-infinite",
+                     "key-mode-capitalised", "intervals-negative-time",
+                     "labeled-events-unsorted", "valued-intervals-negative-duration"])
+    simple = {
+        "tempo-both-zero": ("tempo", "0.0 0.0 0.5\n"),
+        "tempo-infinite": ("tempo", "inf 120.0 0.5\n"),
+        "key-mode-capitalised": ("key", r.choice(["C Major\n", "eb\tMINOR\n",
+                                                  "F# Other\n"])),
+        "intervals-negative-time": ("intervals", "-1.0 1.0\n1.0 2.0\n"),
+        "labeled-events-unsorted": ("labeled_events", "3.0 a\n1.0 b\n"),
+        "valued-intervals-negative-duration": ("valued_intervals",
+                                               "0.0 1.0 3\n2.0 1.5 4\n"),
+    }
+    if kind in simple:
+        f = {"fmt": simple[kind][0], "text": simple[kind][1], "kw": {}}
+    elif kind == "events-unsorted":
         f = {"fmt": "events", "text": "3.0\n1.0\n2.0\n", "kw": {}}
     elif kind == "events-huge":
         f = {"fmt": "events", "text": "1.0\n40000.0\n", "kw": {}}
